@@ -2,6 +2,7 @@ package main
 
 import (
 	"fmt"
+	"math"
 	"reflect"
 	"strings"
 
@@ -273,8 +274,8 @@ func c04Explore(c *vlib.Ctx, try func(k c04Case)) {
 	rc := [][]int{nil, {0}, {3, 1}, {2}, {5}, {7, 11}, {0, 12}, {2, 6}, {13, 9, 4}}
 	ages, sts := ref.MaxAges(), ref.Statuses()
 	if !c.Thorough() {
-		ages = []int{0, -1, 86400, -2, 86401}
-		sts = []int{0, 200, 299, 199, 300}
+		ages = []int{0, -1, 86400, -2, 86401, math.MaxInt, math.MinInt}
+		sts = []int{0, 200, 299, 199, 300, math.MaxInt, 1<<32 + 204}
 	}
 	p2 := vlib.Product{Sizes: []int{len(sws), len(oc), len(mc), len(qc), len(rc), len(ages), len(sts)}}
 	c.ParRange(p2.Count(), 64, "C04/C05 field products", func(i int64) {
